@@ -51,6 +51,7 @@ type Val struct {
 	L     *Loc
 	Fn    *ssa.Function
 	Binds []Val
+	Boxed types.Type // static type of a non-reference value boxed into an interface (MakeInterface)
 	Snaps []Val // per binding: content of a captured variable that is never reassigned (zero Val otherwise)
 	Typ   types.Type
 }
@@ -114,6 +115,10 @@ type Obligation struct {
 // ---- context ----
 
 type Ctx struct {
+	curFr        *Frame // frame whose instruction is being executed
+	scopeCacheFr *Frame
+	scopeCacheN  int
+	scopeCache   map[string][]string
 	w             *World
 	sp            *Specs
 	sorts         *Sorts
@@ -170,6 +175,7 @@ type Frame struct {
 	specVars map[string]TV
 	deferred []func(*State, string)
 	allocs   []allocRec // objects allocated by this frame's own instructions
+	cfg      *cfgInfo   // loop structure of this execution (entry states of its loops)
 }
 
 type allocRec struct {
